@@ -181,6 +181,7 @@ func (dr *DialogueRunner) Next(choice int) (*DialogueElement, error) {
 		if stop, err := dr.executeCommandStatement(nextStatement.CommandStatement); err != nil {
 			return nil, fmt.Errorf("failed to execute command statement: %w", err)
 		} else if stop {
+			dr.statementsToRun.Clear()
 			return nil, nil
 		} else if dr.commandErrChan != nil {
 			return nil, ErrWaitingForCommandCompletion
